@@ -286,7 +286,17 @@ func jsondocMain(mode string, a args) {
 			if r.Intn(3) == 0 {
 				kind = []string{"trunc", "trail", "drop", "comma"}[r.Intn(4)]
 			}
-			o.put(J{"v": gen(0, supported), "pat": pat, "kind": kind, "r": r.Intn(1000)})
+			v := gen(0, supported)
+			if i%40 == 3 {
+				// one list of several hundred elements (the length of a list is not bounded by the grammar)
+				xs := []interface{}{}
+				for k := 260 + r.Intn(200); k > 0; k-- {
+					xs = append(xs, []interface{}{"s", []int{6, 12, 14}[r.Intn(3)]})
+				}
+				v, kind = []interface{}{"arr", xs}, "none"
+				pat = []int{1, 2}
+			}
+			o.put(J{"v": v, "pat": pat, "kind": kind, "r": r.Intn(1000)})
 		}
 		o.close()
 		fmt.Printf("{\"cases\":%d}\n", n)
